@@ -120,7 +120,12 @@ class Flaky:
 def frame_lines(rng, tag, height_hint):
     n = rng.choice([0, 1, 1, 2, 3, height_hint - 1, height_hint, height_hint + 1, height_hint + 3])
     n = max(0, n)
-    return ["%s-%d" % (tag, i) for i in range(n)]
+    lines = ["%s-%d" % (tag, i) for i in range(n)]
+    if lines and rng.random() < 0.1:
+        # one line of the frame is a sentence longer than the terminal is wide: it is folded onto further rows
+        k = rng.randrange(len(lines))
+        lines[k] = lines[k] + " " + " ".join("w%d" % j for j in range(rng.choice([12, 25])))
+    return lines
 
 
 def gen_history(rng, kind, H, n_ops):
@@ -134,6 +139,10 @@ def gen_history(rng, kind, H, n_ops):
         if r < 0.30:
             pi += 1
             ops.append(["print", ["p%d-%d" % (pi, k) for k in range(rng.choice([1, 1, 2, 3]))]])
+            if rng.random() < 0.12:
+                # the same print with one of the documented variations that do not change what a short line looks
+                # like: soft wrapping, Console.out(), no cropping
+                ops[-1].append(rng.choice(["soft_wrap", "out", "crop_false"]))
         elif r < 0.34:
             pi += 1
             ops.append(["log", "l%d" % pi])
@@ -155,7 +164,9 @@ def gen_history(rng, kind, H, n_ops):
             ops.append(["start"])
         elif kind == "live":
             fi += 1
-            ops.append(["update", frame_lines(rng, "f%d" % fi, H), rng.random() < 0.6])
+            # (the last flag: the frame is a text that is NOT folded - no_wrap, overflow "ignore" - its long lines are
+            # cut at the terminal's edge)
+            ops.append(["update", frame_lines(rng, "f%d" % fi, H), rng.random() < 0.6, rng.random() < 0.4])
         elif kind == "status":
             fi += 1
             ops.append(["status", "s%d" % fi])
@@ -253,6 +264,8 @@ class Session:
         from rich.text import Text
         if self.flaky:
             return Flaky(lines)
+        if getattr(self, "rigid", False):
+            return Text("\n".join(lines), no_wrap=True, overflow="ignore")
         return Text("\n".join(lines))
 
     # expected frame as it should appear (cropped / ellipsised)
@@ -289,6 +302,8 @@ class Session:
 
     def _frame_obj_plain(self, lines):
         from rich.text import Text
+        if getattr(self, "rigid", False):
+            return Text("\n".join(l[:self.W] for l in lines))      # (ASCII frames: one character per cell)
         return Text("\n".join(lines))
 
     def feed(self):
@@ -312,7 +327,15 @@ class Session:
         if k == "print":
             from rich.text import Text
             r = Text("\n".join(op[1]))
-            c.print(r)
+            how = op[2] if len(op) > 2 else None
+            if how == "soft_wrap":
+                c.print(r, soft_wrap=True)
+            elif how == "out":
+                c.out("\n".join(op[1]), highlight=False)
+            elif how == "crop_false":
+                c.print(r, crop=False)
+            else:
+                c.print(r)
             self.printed += plain_lines(self.W, [Text("\n".join(op[1]))])
             if self.live_on():
                 self._drew()
@@ -358,6 +381,7 @@ class Session:
                 self._drew()
         elif k == "update":
             self.current = list(op[1])
+            self.rigid = bool(len(op) > 3 and op[3] and any(len(l) > self.W for l in op[1]))
             self.obj.update(self._frame_obj(op[1]), refresh=op[2])
             if op[2] and self.live_on():
                 self._drew()
